@@ -560,7 +560,8 @@ def _run_case(d, case, out):
             return
         bad, worst = compare_tables(tabA, tabX, stats["redox"])
         stats["judged"] += 1
-        stats["worst"][route] = max(stats["worst"].get(route, 0.0), worst)
+        if not bad:       # the worst difference *among comparisons that agree* (a differing state yields a continuum up to the tolerance)
+            stats["worst"][route] = max(stats["worst"].get(route, 0.0), worst)
         if bad:
             lines = ["  step %d %-14s original %.17g   re-instated %.17g   relative %s" % (i + 1, h, a, b, "%.3g" % r if r is not None else "-") if isnum(a) and isnum(b)
                      else "  step %d %-14s original %r   re-instated %r" % (i + 1, h, a, b) for i, h, a, b, r, _ in bad[:12]]
@@ -834,7 +835,7 @@ def run(tier):
     ev.extra["not_completed_samples"] = stats["nc_samples"]
     ev.extra["followup_comparisons_judged"] = stats["judged"]
     ev.extra["followups_not_completed_on_the_original"] = stats["fu_nc"]
-    ev.extra["worst_relative_difference_within_tolerance_by_route"] = {k: float("%.3g" % v) for k, v in sorted(stats["worst"].items())}
+    ev.extra["worst_relative_difference_of_agreeing_comparisons_by_route"] = {k: float("%.3g" % v) for k, v in sorted(stats["worst"].items())}
     ev.extra["followups_not_completed_on_the_SOLUTION_MODIFY_copy (not judged)"] = stats["modify_fu_nc"]
     ev.extra["followup_comparisons_that_differ_only_within_the_redox_resolution_of_the_dump"] = stats["redox_limited"]
     ev.extra["compared_rows"] = stats["rows"]
